@@ -252,8 +252,9 @@ static Reg r_mconvdeg("m15_convdeg", [](const Args& a) {
   emit(cat({sy, sx, r.y(), r.x(), out}));
   // adding a whole turn to the argument adds a whole turn to the result
   if (std::isfinite(z) && std::fabs(z) < 1e12) {
-    double o2 = A.Convert(from, to, z + 360, exact);
-    if (z + 360 - z == 360 && !(std::fabs(o2 - out - 360) <= 4 * ulp(std::fabs(o2) + 360)) && !(std::isnan(o2) && std::isnan(out)))
+    double zz = z + 360, o2 = A.Convert(from, to, zz, exact);
+    // only when zeta + 360 is exact (then zz - 360 is exact by Sterbenz' lemma and gives zeta back)
+    if (zz >= 180 && zz <= 720 && zz - 360 == z && !(std::fabs(o2 - out - 360) <= 4 * ulp(std::fabs(o2) + 360)) && !(std::isnan(o2) && std::isnan(out)))
       bad("auxlat-degrees-period", "Convert(zeta + 360) - Convert(zeta) = " + sd(o2 - out) + " for zeta = " + sd(z));
   }
 });
